@@ -29,6 +29,8 @@ def run(chk, facts_dir, tier):
     chk.rule("R10.2", "transaction::run replicates the transaction with expected_partition_sequence(from_next_version(append.first_partition_sequence))")
     chk.rule("R10.3", "the handler forwards only after the sender check (coordinator found among the available replicas) and the staleness check "
                       "(coordinator_alive_since >= alive_since); ConfirmTransaction writes confirmations only after the length, sequence and event-id comparisons")
+    chk.rule("R10.5", "ONLY ACKS COUNT: the coordinator adds a replica to confirmed_replicas only on the Ok arm of that replica's reply; an error reply (StaleWrite: the replica holds "
+                      "something else at that sequence) never counts towards the quorum that confirms the coordinator's own transaction")
     chk.rule("R10.4", "IDENTITY OF BUFFERED WRITES: BufferedWrite::key_eq compares transaction ids (a different transaction for an already buffered sequence is a "
                       "conflict, never a merge); quorum shape: see C07 R7.3")
     chk.not_decided += ["agreement under arbitrary fault schedules (delays, drops, divergent membership)", "the database's own expected-sequence check (C02 R2.4)"]
@@ -198,4 +200,9 @@ def run(chk, facts_dir, tier):
     else:
         chk.fail("R10.4", kb.path, "key_eq-not-transaction-id", "two buffered writes are considered the same write by something other than their transaction id (%s): a different "
                  "transaction arriving for a buffered sequence is merged and acknowledged instead of rejected as a conflict" % show(ret)[:120], kb)
+    # ---------------- R10.5
+    from . import c11
+    rb = prog.body(c11.RUN)
+    chk.analysed(rb.path)
+    c11.count_only_acks(chk, prog, rb, Ev(prog, rb), "R10.5")
     return {}
